@@ -23,7 +23,23 @@ COMP_METHODS = ("execute", "on_enable", "on_disable", "setup")
 MODE_METHODS = ("on_enable", "on_iteration", "on_disable")
 
 
-def tokenize(trace):
+def mode_loop_sites(traces):
+    """the mode loop of a function is the outermost loop that contains the NotifierDelay wait (DESIGN.md C05)"""
+    sites = set()
+    for tr in traces:
+        stack = []
+        for e in tr:
+            if e.kind == "loop_begin":
+                stack.append(e.site[:2] if e.site else None)
+            elif e.kind == "loop_end":
+                if stack:
+                    stack.pop()
+            elif e.kind == "ext" and e.name == "hal.waitForNotifierAlarm" and stack:
+                sites.add(stack[0])
+    return sites
+
+
+def tokenize(trace, loop_sites=None):
     out = []
     for e in trace:
         if e.kind == "user":
@@ -60,9 +76,9 @@ def tokenize(trace):
                 out.append(("modename", e.args[0] if e.args else None, e.name, e))
             elif e.name == "hal.updateNotifierAlarm":
                 out.append(("arm", e.args[1] if len(e.args) > 1 else None, e))
-        elif e.kind == "loop_iter" and e.name == "while":
+        elif e.kind == "loop_iter" and (e.site[:2] in loop_sites if loop_sites else e.name == "while"):
             out.append(("iter", e.args[0], e.site))
-        elif e.kind == "loop_end" and e.name == "while":
+        elif e.kind == "loop_end" and (e.site[:2] in loop_sites if loop_sites else e.name == "while"):
             out.append(("loopend", e.extra, e.site))
         elif e.kind == "fault":
             out.append(("fault", e.name, e))
@@ -117,10 +133,10 @@ def key(t):
 
 
 class PathInfo:
-    def __init__(self, p, func):
+    def __init__(self, p, func, loop_sites=None):
         self.p = p
         self.func = func
-        self.tokens = tokenize(p.trace)
+        self.tokens = tokenize(p.trace, loop_sites)
         self.outcome = p.outcome
         atoms = {}
         for a, v, _ in p.path:
@@ -167,7 +183,8 @@ def explore(ctx, info, world, func, fault=False, max_while=2):
         return it.call(it.getattr(r, func), [], {})
 
     paths = fn.all_paths(ctx, run, hooks=lambda: robot.RobotHooks(info, 1 if fault else 0), world=world, max_paths=300000)
-    return [PathInfo(p, func) for p in paths]
+    sites = mode_loop_sites([p.trace for p in paths])
+    return [PathInfo(p, func, sites) for p in paths]
 
 
 def prepare(ctx):
@@ -594,7 +611,22 @@ def fault_skeleton_check(ctx, res, keep, rule, what):
         fk = faulted_key(pi)
         exp, complete = expected_sequence(pi, w, per)
         if fk is not None and fk[0] == "fbget":
-            exp = [k for k in exp if k != ("set", fk[1])]
+            # the raising getter suppresses its own setter in that iteration (and only that one)
+            nth = 0
+            for t in pi.tokens:
+                if t[0] == "fault":
+                    break
+                if key(t) == fk:
+                    nth += 1
+            seen_n = 0
+            exp2 = []
+            for k in exp:
+                if k == ("set", fk[1]):
+                    seen_n += 1
+                    if seen_n == nth:
+                        continue
+                exp2.append(k)
+            exp = exp2
         act = [key(t) for t in pi.tokens]
         a, e = project(act, keep), project(exp, keep)
         n += 1
